@@ -210,7 +210,7 @@ def soft_tensor(rows):
     return torch.tensor([[float(Fraction(a, b)) for a, b in r] for r in rows], dtype=torch.float32)
 
 
-def build(case, ds):
+def build(case, ds, tape=None):
     """constructs the real wrapper of `case` around `ds`"""
     import importlib
     import torch
@@ -232,6 +232,20 @@ def build(case, ds):
         return cls(ds, pseudo_labels=tbl, threshold=case["thr"], topk=case["topk"], tau=tau, seed=case["seed"])
     if k == "rc":
         kw = {"world_size": case["W"]} if case["mode"] == "gatherbug" else None
+        if case.get("via_setters") and case["mode"] in ("random", "randperm", "gatherbug"):
+            # history: the object is built with another configuration, read in bulk and per sample, and then brought to the case's
+            # configuration through its public setters -- it must then behave like one constructed with that configuration
+            other = {"random": "randperm", "randperm": "random", "gatherbug": "gatherbug"}[case["mode"]]
+            w = cls(dataset=ds, mode=other, mode_kwargs=kw, num_classes=case["nc"] + 1, seed=case["seed"] + 1)
+            w.getall_class()
+            if len(ds):
+                w.getitem_class(0)
+            w.seed = case["seed"]
+            w.num_classes = case["nc"] if case.get("explicit_nc", True) else ds.getshape("class")[0]
+            if tape is not None:
+                del tape[:]
+            w.mode = case["mode"]
+            return w
         return cls(dataset=ds, mode=case["mode"], mode_kwargs=kw, num_classes=case["nc"] if case.get("explicit_nc", True) else None,
                    seed=case["seed"])
     if k == "semi":
@@ -306,11 +320,13 @@ def run_real(case):
     n = len(labels)
     scramble(case.get("g", 0))
     tape, calls = [], []
-    ds = dataset(labels, C)
+    # every second case wraps a dataset that hands out its STORED label list from getall_class (`return self.targets`):
+    # a wrapper that edits a bulk result in place then changes the wrapped dataset (and every other wrapper over it)
+    ds = dataset(labels, C, alias=case.get("g", 0) % 2 == 1)
     res = {}
     with recording(kind, tape):
         try:
-            w = build(case, ds)
+            w = build(case, ds, tape)
         except Exception as e:
             return {"ctor": exc_kind(e), "tape": tape, "msg": str(e)[:120]}
         res["ctor"] = "ok"
@@ -788,7 +804,7 @@ def gen_case(rng, kind, big=False):
     if kind == "rc":
         mode = rng.choice(["random", "randperm", "gatherbug", "gatherbug"])
         c.update(labels=gen_labels(rng, C, n, True), mode=mode, nc=rng.randint(1, 6), explicit_nc=rng.random() < 0.7, seed=seed,
-                 W=rng.randint(1, n))
+                 W=rng.randint(1, n), via_setters=rng.random() < 0.4)
         if odd:
             z = rng.choice(["mode", "W"])
             if z == "mode":
@@ -873,17 +889,7 @@ def signature(case, real):
 # ----------------------------------------------------------------------------------------------
 def observations():
     obs = []
-    try:
-        import importlib
-        Semi = getattr(importlib.import_module(MODULES["semi"]), "SemiWrapper")
-        ds = dataset([0, 1, 2, 3], 4, alias=True)
-        w = Semi(dataset=ds, semi_percent=0.5, seed=0)
-        w.getall_class()
-        if ds.classes != [0, 1, 2, 3]:
-            obs.append(f"SemiWrapper.getall_class writes -1 into the list object returned by the wrapped dataset's getall_class "
-                       f"(a dataset returning its own list ends up with {ds.classes}); outside the claim (the check's dataset returns a fresh list)")
-    except Exception as e:
-        obs.append(f"SemiWrapper aliasing probe: {type(e).__name__}: {e}")
+    import importlib
     try:
         Swap = getattr(importlib.import_module(MODULES["swap"]), "SwapLabelWrapper")
         w = Swap(dataset([0, 1, 2], 3), p=0.5, seed=0)
